@@ -84,6 +84,7 @@ type Trace struct {
 	NEv     int                    `json:"nev"`   // events counted by the measured run
 	NumTab  []NumEnt               `json:"numtab"`
 	Out     []int                  `json:"out"` // all bytes written to the sink
+	StrMut  int                    `json:"strmut"` // strings delivered by value whose bytes changed before the case ended
 	Raw     []int                  `json:"raw"` // the bytes the encoder itself wrote (Out additionally holds the driver's separators between JSON texts)
 	Extra   map[string]interface{} `json:"extra,omitempty"`
 }
@@ -335,6 +336,7 @@ func runParse(c *Case, tr *Trace) {
 		tr.NumTab = numTabFor(doc)
 	}
 	parseDoc(rec, c.Entry)
+	tr.StrMut = rec.Mutated()
 	if c.Measure {
 		cv := &CountVisitor{}
 		chunks := chunksOf(doc, c.Cuts) // prepared outside the measured region
@@ -525,6 +527,9 @@ func runSched(c *Case, tr *Trace) {
 				verdict = "error"
 			}
 		}()
+		if verdict != "panic" && rec.Mutated() > 0 {
+			verdict += "+a string delivered by value changed afterwards"
+		}
 		ev := rec.Events
 		if ev == nil {
 			ev = []Event{}
